@@ -3,7 +3,6 @@
 Case lines (see harness.cpp / driver.ml):
   hist  <kind> <w> <bits> <k> <op>*k     history on the two-register machine, observers after every step
   words <kind> <w> <bits> <k> <op>*k     same history, raw storage words after every step (impl = model only)
-  strbad <bits> <len> <codes> <pos> <n> <zero> <one>   string constructor with foreign characters (impl = model only)
   tostr <bits> <len> <codes> <zero> <one>              to_string with custom characters, two capacities
   popfb <w> <x>                                        popcount_fallback (constexpr path) and popcount
 kind = bs (etl::bitset<bits>, w = 64) | bb (etl::basic_bitset<bits, uint<w>_t>)
@@ -34,8 +33,9 @@ RULE = ("widths {1,7,8,9,31,32,33,63,64,65,127,128,129} x {etl::bitset, basic_bi
         "popcount fallback exhaustively for 8 bit and on boundary/random values above. "
         "non-trivial = distinct case line with at least one non-contract step and a set bit somewhere")
 
-TRUSTED_BASE = ["reference leg: libstdc++ 12 std::bitset<N> on the same history; std out_of_range (and operator[] "
-                "outside the set, UB in std) is identified with the etl contract outcome",
+TRUSTED_BASE = ["reference leg: libstdc++ 12 std::bitset<N> on the same history; std out_of_range / invalid_argument (and "
+                "operator[] outside the set, UB in std) are identified with the etl contract outcome; libstdc++ validates "
+                "only the first min(N, rlen) characters of a string, the harness applies [bitset.cons] to the rest",
                 "raw-storage comparison reads the object representation of the etl object (memcpy), little endian"]
 ASSUMPTIONS = ["LP64: size_t, unsigned long and unsigned long long are 64 bits", "widths >= 1 (bitset<0> is not modelled)"]
 
@@ -146,7 +146,10 @@ def random_history(rng, kind, w, bits, length):
         elif r < 0.88 and full:
             ln = rng.choice([bits, bits, bits - 1, bits + 1, rng.randint(0, bits + 3)])
             ln = max(ln, 0)
-            ops.append(str_op(rand_str(rng, ln), 0, NPOS, 48, 49))
+            t = rand_str(rng, ln)
+            if ln > 0 and rng.random() < 0.1:
+                t[rng.randrange(ln)] = rng.choice([50, 47, 0])
+            ops.append(str_op(t, 0, NPOS, 48, 49))
         elif r < 0.94:
             ops.append("sw")
         else:
@@ -174,12 +177,13 @@ def string_cases(rng, bits, quick):
                     out.append(hist("bs", 64, bits, ops))
                     if rng.random() < 0.3:
                         out.append(words("bs", 64, bits, ops))
-                    # a foreign character somewhere: outside the standard's domain
+                    # a foreign character somewhere (also beyond the first `bits` characters): std throws
+                    # invalid_argument when it lies inside [pos, pos + rlen), etl's precondition fires
                     if ln > 0 and rng.random() < 0.5:
                         t = list(s)
                         k = rng.randrange(ln)
                         t[k] = rng.choice([c for c in (50, 47, 97, 0, 255) if c not in (zero, one)])
-                        out.append("strbad %d %d %s %d %d %d %d" % (bits, ln, " ".join(map(str, t)), pos, n, zero, one))
+                        out.append(hist("bs", 64, bits, ["sa", str_op(t, pos, n, zero, one), "t 0"]))
     for _ in range(10 if quick else 100):
         zero, one = rng.choice(alph[:5])
         if zero == one:
